@@ -161,6 +161,12 @@ def raw_doc(d, ts):
            "timezone": d["zone"], "userID": None, "userInputs": None, "docIndex": i,
            "modifiedAt": d["modifiedAt"]["text"], "requestedDeparture": d["requestedDeparture"]["text"],
            "note": "Mon, not a date"}
+    if i % 3 == 1:
+        # RFC 1123 writes the day of the month as 1*2DIGIT: every third document spells days below 10 without the
+        # leading zero ("Wed, 1 May 2019 15:00:00 GMT"); it is the same date (ThCompactDay in DataClientTime.tla)
+        for k, v in list(doc.items()):
+            if isinstance(v, str) and len(v) == 29 and v.endswith(" GMT") and v[5] == "0":
+                doc[k] = v[:5] + v[6:]
     if ts:
         for name, vals in SERIES:
             if d[name]:
@@ -252,6 +258,10 @@ def _invoke(client, call, variant):
                 kw[name] = call[key][0]
         if call["ts"]:
             kw["timeseries"] = True
+        if variant == "pos":
+            # the documented signature get_sessions(site, cond=None, project=None, sort=None, timeseries=False),
+            # arguments by position
+            return client.get_sessions(call["site"], opt(call["cond"]), opt(call["project"]), opt(call["sort"]), bool(call["ts"]))
         return client.get_sessions(call["site"], **kw)
     if call["api"] == "count_sessions":
         return client.count_sessions(call["site"], opt(call["cond"])) if call["cond"] else client.count_sessions(call["site"])
@@ -266,6 +276,10 @@ def _invoke(client, call, variant):
         kw["timeseries"] = True
     if call["count"]:
         kw["count"] = True
+    if variant == "utc":
+        # get_sessions_by_time(site, start=None, end=None, min_energy=None, timeseries=False, count=False) by position
+        return client.get_sessions_by_time(call["site"], kw.get("start"), kw.get("end"), kw.get("min_energy"),
+                                           bool(call["ts"]), bool(call["count"]))
     return client.get_sessions_by_time(call["site"], **kw)
 
 
@@ -374,7 +388,12 @@ def _replay_protocol_variant(b, docs, variant):
 def replay_protocol(b):
     docs = {int(k): v for k, v in b["docs"].items()}
     call = b["call"]
-    variants = ["zone", "utc", "fixed"] if call["api"] == "get_sessions_by_time" and (call["start"] or call["end"]) else ["zone"]
+    # variants: how aware datetimes are given (their own zone / UTC / a fixed offset) and how arguments are passed
+    # (by keyword; "pos" and "utc" pass them by position, in the documented order)
+    if call["api"] == "get_sessions_by_time":
+        variants = ["zone", "utc", "fixed"] if (call["start"] or call["end"]) else ["zone", "utc"]
+    else:
+        variants = ["zone", "pos"] if call["api"] == "get_sessions" else ["zone"]
     ctx = contextlib.nullcontext() if _is_patched() else patched_requests()
     with ctx:
         for v in variants:
